@@ -15,7 +15,7 @@ RULE = (
     "str+lower letter, str+upper letter} x default directions via argument and MasterConfig, with 0..2 "
     "components replaced by error/undefined placeholders; one-dimensional sweeps are enumerated exhaustively. "
     "B: strings obtained from a valid TRS by 1-2 character edits (insert/delete/substitute/prefix/suffix over "
-    "'0-9nsewxzXZ_ -'); single edits on a pool are enumerated exhaustively. Non-trivial: A = a non-int "
+    "'0-9nsewxzXZ_ -' plus newline, tab and period); single edits on a pool are enumerated exhaustively. Non-trivial: A = a non-int "
     "encoding or a placeholder component; B = the edited string is not itself in the reference grammar but still "
     "contains a fully numeric TRS-looking substring. Distinct = distinct canonical case encoding."
 )
@@ -228,7 +228,7 @@ def oracle_a(c):
 # ---------------------------------------------------------------------------
 # B: strictness
 
-ALPHABET = "0123456789nsewxzXZ_ -"
+ALPHABET = "0123456789nsewxzXZ_ -\n\t."
 
 
 def valid_pool():
